@@ -489,7 +489,13 @@ fn run_fit(case: &Case, cfg: &Cfg, cnt: &mut Cnt, viols: &mut Vec<Violation>) ->
         return true;
     }
     let max_cond = comps.iter().fold(1.0f64, |s, c| s.max(c.cond));
-    cnt.max("max_log10_condition_number_x100", (max_cond.log10() * 100.0).max(0.0) as u64);
+    if max_cond.is_finite() {
+        cnt.max("max_log10_condition_number_x100", (max_cond.log10() * 100.0).max(0.0) as u64);
+    } else {
+        // Cholesky succeeded but the smallest Jacobi eigenvalue is <= 0 (reg_covar = 0 on rank-deficient
+        // data): no reference-based oracle is possible, the validity oracles still run
+        cnt.add("models_with_numerically_singular_covariance", 1);
+    }
 
     // precisions x covariances = I
     for c in 0..k {
@@ -637,7 +643,10 @@ fn run_fit(case: &Case, cfg: &Cfg, cnt: &mut Cnt, viols: &mut Vec<Violation>) ->
         let err_max = errs.iter().cloned().fold(0.0f64, f64::max);
         let wl_max = wl.iter().cloned().fold(f64::NEG_INFINITY, f64::max);
         // regime: can any exp() of the reference weighted log densities be computed without loss?
-        let low_regime = wl_max < LN_MIN_NORMAL + 1.0 + err_max;
+        // slack of the classification: the discrepancy bound, but never more than 5 % of the value (an
+        // ill-conditioned model must not widen the regime in which the narrow signatures apply)
+        let slack = 1.0 + err_max.min(0.05 * wl_max.abs());
+        let low_regime = wl_max < LN_MIN_NORMAL + slack;
         if low_regime {
             if wl_max < -745.2 {
                 cnt.add("queries_every_density_underflows_to_0", 1);
@@ -661,7 +670,7 @@ fn run_fit(case: &Case, cfg: &Cfg, cnt: &mut Cnt, viols: &mut Vec<Violation>) ->
             let s: f64 = row.iter().sum();
             if (s - 1.0).abs() > TOL_SUM {
                 // subnormal band only: below it the un-shifted sum is exactly 0 and the row is all inf
-                if low_regime && wl_max >= -745.2 - 1.0 - err_max {
+                if low_regime && wl_max >= -745.2 - slack {
                     note(SIG_SUBNORMAL, i, format!("query {} = {:?}: predict_proba row {:?} sums to {} (|sum-1| = {:e}); reference weighted log densities {:?}: the largest exp() is subnormal, so the un-shifted sum has lost its mantissa", q.kind, q.x, row, s, (s - 1.0).abs(), wl));
                 } else {
                     note("gmm.predict_proba.row_does_not_sum_to_one", i, format!("query {} = {:?}: predict_proba row {:?} sums to {} (expected 1 +- {:e})", q.kind, q.x, row, s, TOL_SUM));
@@ -773,7 +782,7 @@ fn main() {
     ctx.assume("precisions: max |P S - I| <= 1e-13 * cond(S) + 1e-12 with cond from the Jacobi eigenvalues; components with a bound above 1e-6 are counted indeterminate");
     ctx.assume("'diagonal includes the regularisation' is made exact through the M-step moment identity sum_k w_k (S_k + (mu_k - m)(mu_k - m)^T) - reg I = population covariance of the data and sum_k w_k mu_k = data mean, relative 1e-9; holds for ANY responsibilities whose rows sum to one, hence for every accepted EM iterate");
     ctx.assume("predict_proba rows: all finite, all >= 0, |sum - 1| <= 1e-9; predict: index < k and probability >= row maximum - 1e-12 (any member of the tie set)");
-    ctx.assume("reference posterior: own Cholesky of the published covariances, weighted log densities, max-shifted log-sum-exp; discrepancy bound per component 1e-13 * cond * (mahalanobis^2 + d) + 1e-13 |log density|; probabilities compared with k * bound + 1e-9 when the bound <= 1e-4 (else indeterminate), only where the largest weighted log density is above ln(f64::MIN_POSITIVE) + 1 + bound; predict must lie within 2 * bound + 1e-9 (1 + |max|) of the maximal reference weighted log density (else violation; smaller non-zero gaps indeterminate)");
+    ctx.assume("reference posterior: own Cholesky of the published covariances, weighted log densities, max-shifted log-sum-exp; discrepancy bound per component 1e-13 * cond * (mahalanobis^2 + d) + 1e-13 |log density|; probabilities compared with k * bound + 1e-9 when the bound <= 1e-4 (else indeterminate), only where the largest weighted log density is above ln(f64::MIN_POSITIVE) + 1 + min(bound, 5 % of its value) (the same slack delimits the regimes of the three narrow signatures: all-inf row only below that line, finite row with a wrong sum only between it and -745.2 - slack); predict must lie within 2 * bound + 1e-9 (1 + |max|) of the maximal reference weighted log density (else violation; smaller non-zero gaps indeterminate)");
     ctx.assume("an Err from fit (NotConverged, EmptyCluster, LinalgError, KMeansError, MinMaxError, LowerBoundError) is an accepted outcome; InvalidValue for the valid grid, a panic, or an Ok model with non-finite parameters is a violation; f64 only");
 
     let members = catalogue(ctx.thorough());
